@@ -114,6 +114,12 @@ func emittedBytes(ip *bits.Interp, fi *core.FuncInfo, pth *cePath, payload types
 		}
 		switch v := s.(type) {
 		case *ast.ReturnStmt:
+			// `return out.WriteBytes(b)`: the write happens in the return expression
+			if len(v.Results) == 1 {
+				if call, ok := ast.Unparen(v.Results[0]).(*ast.CallExpr); ok {
+					emitCall(call)
+				}
+			}
 			continue
 		case *ast.ExprStmt:
 			if call, ok := v.X.(*ast.CallExpr); ok {
